@@ -307,7 +307,7 @@ func c19Migration(c *Ctx) {
 		{"suffix", `call<strings.HasSuffix>(call<strings.TrimPrefix>(p0, "TRANSFER"), "9")`, ""},
 		{"address-b1t6", "bin<==>(ext#1(" + addrDec + "), nil)", "bin<!=>(ext#1(" + addrDec + "), nil)"},
 		{"checksum-b1t6", "bin<==>(ext#1(" + chkDec + "), nil)", "bin<!=>(ext#1(" + chkDec + "), nil)"},
-		{"checksum-equal", "call<bytes.Equal>(ext#0(" + chkDec + "), slice(" + hash + ", 0, len(ext#0(" + chkDec + "))))", ""},
+		{"checksum-equal", "call<bytes.Equal>(ext#0(" + chkDec + "), slice(" + hash + ", 0, alt(len(ext#0(" + chkDec + ")), 4)))", ""},
 	}
 	var succ, errs []ana.Exit
 	for _, e := range ana.Exits(fn) {
